@@ -23,7 +23,7 @@ LEVEL_TEXT = ("Random points of the quantified parameter box (N 1-60, theta_s (0
 LEVEL_NOTE = "Tolerances 1e-9*h on depth identities; N = 1 has no level pair: index validity is required only where the weight is non-zero. Trusts icontract (evaluation counts reported; zero => inconclusive)."
 RULE = ("case = chunk of random parameter points; every point calls s_stretch (rho,w), sdepth (rho,w) and z2s for ~40 depths per column; some chunks build a real "
         "ROMS.Grid from a generated file and from Vinfo. Non-trivial point: N >= 2 and stretched (theta_s > 0.5); distinct by rounded parameters.")
-MANDATORY = ["grid_file_with_Tcline", "bathymetry_not_c_contiguous", "z2s_calls_over_many_cells", "post_s_stretch", "post_sdepth", "post_z2s", "vtransform1", "vtransform2", "vstretching1", "vstretching2", "vstretching4",
+MANDATORY = ["z2s_result_kept_over_a_second_lookup", "grid_file_with_Tcline", "bathymetry_not_c_contiguous", "z2s_calls_over_many_cells", "post_s_stretch", "post_sdepth", "post_z2s", "vtransform1", "vtransform2", "vstretching1", "vstretching2", "vstretching4",
              "depth_above_surface", "depth_below_bottom", "depth_on_level", "grid_from_file", "grid_from_vinfo", "N1", "vinfo_dictionary_reused", "grid_file_without_Vtransform", "grid_file_with_Vstretching"]
 ASSUMPTIONS = ["zeta = 0 (ladim ignores sea-surface elevation)", "Vtransform 1 only with hc <= min(h), as the property quantifies"]
 TIMEOUT = {"quick": 600, "thorough": 3000}
@@ -211,7 +211,14 @@ def run_case(case: dict[str, Any], wd: Path) -> dict[str, Any]:
             Xm = np.concatenate([Xm, [t_[0] for t_ in ties]])
             Ym = np.concatenate([Ym, [t_[1] for t_ in ties]])
             Zm = np.concatenate([Zm, [0.5 * float(h[int(np.around(t_[1])), int(np.around(t_[0]))]) for t_ in ties]])
-            guarded("z2s (particles in many cells)", p, R.z2s, zr, Xm, Ym, Zm)
+            first = guarded("z2s (particles in many cells)", p, R.z2s, zr, Xm, Ym, Zm)
+            if first is not None:
+                # a second lookup for as many particles at other depths must leave the first answer as it was
+                K1, A1 = np.array(first[0]).copy(), np.array(first[1]).copy()
+                guarded("z2s (second lookup, same number of particles)", p, R.z2s, zr, Xm, Ym, 0.37 * Zm + 0.01)
+                bump("z2s_result_kept_over_a_second_lookup")
+                if np.any(np.asarray(first[0]) != K1) or np.any(np.asarray(first[1]) != A1):
+                    V.append(C.viol("the index/weight arrays returned by z2s changed when z2s was called again for other depths", params=p))
             bump("z2s_calls_over_many_cells")
             if N >= 2 and p["theta_s"] > 0.5:
                 keys.add((N, round(p["theta_s"], 3), round(p["theta_b"], 3), p["Vstretching"], p["Vtransform"], round(hc, 3)))
